@@ -686,7 +686,7 @@ def cleanup(tier, seed, ci, nc):
     return _slice(gen(), ci, nc)
 
 
-def cache(tier, seed, ci, nc, maxlen=4, variants=('pok', 'pokpos', 'forger', 'deco', 'pok_eq', 'deco_eq')):
+def cache(tier, seed, ci, nc, maxlen=4, variants=('pok', 'pokpos', 'forger', 'deco', 'pok_eq', 'deco_eq', 'pokself', 'pokself_eq')):
     alphabet = ['get:0', 'get:1', 'call:0', 'call:1', 'dropw:0', 'dropw:1', 'dropi:0', 'dropi:1', 'gc']
     rng = _rng(seed, 'cache', ci)
 
